@@ -89,7 +89,7 @@ theorem new_then_history_never_panics (c : Cfg) (ok : CfgOk c) (init : Init) (hi
 
 /-- `tree_stats()` never panics and reads only, in every state satisfying the upper invariant
     (hence after every call of every sequential history of a constructed allocator) -/
-theorem tree_stats_never_panics (c : Cfg) (H : Nat → Prop) (ok : CfgOk c) (m : Mem) (inv : UpperInv0 c H m) :
+theorem tree_stats_never_panics (c : Cfg) (H : Nat → Nat) (ok : CfgOk c) (m : Mem) (inv : UpperInv0 c H m) :
     Runs m (treeStats c) (fun _ m' => m = m') :=
   (treeStats_spec c m ok inv).mono (fun _ _ h => h.1)
 
